@@ -419,7 +419,7 @@ def release_and_overrides(ctx):
 
 
 def shared(ctx):
-    ob = ctx.ob("C04.6", "the tREFI handed to the controller is rounded down (shared with C16.3) and each executer starts with precharge-all "
+    ob = ctx.ob("C04.6", "the tREFI handed to the controller is the datasheet entry of the refresh mode in use, rounded down (shared with C16.3 / C16.4 / C16.7), and each executer starts with precharge-all "
                          "(shared with C02.1)", 2)
     from . import c16, c02
     sub = Ctx("C16", ctx.tier, ctx.seed, ctx.repo)
@@ -432,6 +432,14 @@ def shared(ctx):
                 ob.refute(r["key"], r["msg"], r.get("loc"))
             for u in o.unknowns:
                 ob.unknown(u)
+        if o.oid in ("C16.4", "C16.7"):
+            # the interval is the datasheet entry of the refresh mode in use (DDR4 2x / 4x halve / quarter it): looked up with the mode, from the per-mode tables
+            for i in o.instances:
+                if "tREFI" in i["what"]:
+                    ob.instance(o.oid + ": " + i["what"], i["detail"])
+            for r in o.refutations:
+                if "tREFI" in r["key"] or o.oid == "C16.7":
+                    ob.refute(o.oid + ":" + r["key"], r["msg"], r.get("loc"))
     sub2 = Ctx("C02", ctx.tier, ctx.seed, ctx.repo)
     c02.encodings(sub2)
     for o in sub2.obligations:
